@@ -243,7 +243,9 @@ def variant_job(chk, job, ctx):
     e.stubs['walk_node_for_targets'] = stub_walk
     install_symbolic_set(e, tvars)
     g = ptgen.Gen(types, L=L, tag='w')
-    g.Lnested = 1
+    # lists inside a node's own lists are bounded by 1, except in function definitions: there the attribute list is itself inside the
+    # boxed definition, and the walker has per-attribute code (two modifier / base invocations with arguments must both be walked)
+    g.Lnested = 2 if vname == 'FunctionDefinition' else 1
     if ty == 'SourceUnit':
         inner = Adt('SourceUnit', None, (g.gen('Vec<SourceUnitPart>', 1),))
         kind = 'SourceUnit'
